@@ -32,8 +32,8 @@ CLAIMS = {
          "exactly when the candidate lacks a dataset element (C01_kemeny_impl_total); each counter of the code is characterised (merge sort "
          "inversion count, within-bucket runs, bucket loop, prefix tables). Tie to the code: the model, the literal specification and the library's "
          "answer are evaluated inside Coq on the same inputs (API level and the eight per-ranking counters). For sizes no evaluation can follow "
-         "(tens of thousands of elements) the library is judged against a proved closed form (C01_all_tied_against_strict: one strict ranking "
-         "against the candidate that ties all its elements).",
+         "(tens of thousands of elements) the library is judged against a proved closed form (C01_all_tied_against_strict, C01_reversed_against_strict: one strict "
+         "ranking against the candidate that ties all its elements / that reverses it).",
          "Trusted: Coq kernel + vm_compute; hand-written model tied by correspondence only; harness; exact float sums on the 1/8000 grid.",
          "DESIGN.md section 4, C01"),
  "C20": ("Coq invariant-by-induction over a Gallina model of the Markov moves of ranking.py + exhaustive per-move correspondence",
